@@ -99,6 +99,14 @@ let () = iter_lines (fun l ->
                             go st' rest (List.map hx st'.s_nodes :: acc)
            | _ -> failwith "op") in
          out ("Ok" :: List.concat (go st0 r [List.map hx st0.s_nodes])))
+    | "ES" :: n :: r ->
+      (* ES n c(n) w(n) nk k(nk) -> smooth1 k (eh_band c w) *)
+      let n = int_of_string n in
+      let (c, r) = take n r in
+      let (w, r) = take n r in
+      (match r with
+       | _ :: k -> out (List.map hx (smooth1 numf (List.map fl k) (eh_band numf (List.map fl c) (List.map fl w))))
+       | [] -> failwith "k")
     | "SM" :: nk :: r ->
       let nk = int_of_string nk in
       let (k, r) = take nk r in
